@@ -5,6 +5,7 @@ package main
 import (
 	"context"
 	"errors"
+	"math/big"
 	"reflect"
 	"strings"
 	"sync"
@@ -369,7 +370,7 @@ func (s *source) BlockByNumber(ctx context.Context, n uint64) (junosync.Committe
 		} else {
 			b, how = corrupt(chain[n], r, s.net)
 		}
-		if how == "class-definition" && s.byBlock != nil {
+		if (how == "class-definition" || how == "undeclared-class-entry") && s.byBlock != nil {
 			// feeder mode: class definitions are fetched one by one from the adapter, the bundle's map
 			// never reaches the node — this answer is the honest block
 			b, how = chain[n].Clone(), ""
@@ -770,7 +771,7 @@ var unsupportedVersions = []string{"0.15.0", "0.15", "0.99.7", "1.0.0", "1.14.1"
 // agreement, class hashes, transaction/receipt pairing, transaction hashes, the block hash and the
 // commitments it covers). The block hash is kept, except for "root-split", where it is recomputed over
 // the changed header. Every variant must be rejected by SanityCheckNewHeight.
-const nCorruptKinds = 20
+const nCorruptKinds = 21
 
 func corrupt(b *lib.Bundle, r *lib.RNG, net *networks.Network) (*lib.Bundle, string) {
 	for try := 0; try < 12; try++ {
@@ -945,9 +946,48 @@ func corruptKind(b *lib.Bundle, kind int, r *lib.RNG, net *networks.Network) (*l
 				rc.TransactionHash = new(felt.Felt).Add(rc.TransactionHash, one)
 				return c, "receipt-tx-hash"
 			}
+		case 20:
+			// round 6: a block that DECLARES no class arrives with an entry in NewClasses all the same (the
+			// feeder data source fetches the class of a deployed contract the state does not know; a lying
+			// source can attach anything): a Sierra definition under a key that is not its class hash. Only
+			// VerifyClassHashes, applied to EVERY entry of the map whatever the diff declares, can see it.
+			sd := c.SU.StateDiff
+			if len(sd.DeclaredV0Classes)+len(sd.DeclaredV1Classes) == 0 && len(b.Classes) == 0 {
+				key := *lib.FHex("0xc0de0006")
+				for _, ch := range sd.DeployedContracts {
+					key = *ch
+					break
+				}
+				c.Classes = map[felt.Felt]core.ClassDefinition{key: strayClass()}
+				return c, "undeclared-class-entry"
+			}
 		}
 	}
 	return nil, ""
+}
+
+// strayClass: a well-formed Sierra class (its hash is NOT the key it is attached under).
+func strayClass() *core.SierraClass {
+	return &core.SierraClass{
+		Abi:     "[abi stray]",
+		AbiHash: lib.F(1600),
+		EntryPoints: core.SierraEntryPointsByType{
+			Constructor: []core.SierraEntryPoint{{Index: 0, Selector: lib.F(88)}},
+			External:    []core.SierraEntryPoint{{Index: 1, Selector: lib.F(6001)}},
+			L1Handler:   []core.SierraEntryPoint{},
+		},
+		Program:         []felt.Felt{*lib.F(1), *lib.F(6), *lib.F(0), *lib.F(66), *lib.F(5)},
+		ProgramHash:     lib.F(2600),
+		SemanticVersion: "0.1.0",
+		Compiled: &core.CasmClass{
+			Bytecode:        []felt.Felt{*lib.F(61), *lib.F(2), *lib.F(63), *lib.F(4)},
+			CompilerVersion: "2.1.0",
+			Prime:           new(big.Int).SetUint64(1),
+			External:        []core.CasmEntryPoint{{Offset: 0, Builtins: []string{"range_check"}, Selector: lib.F(6001)}},
+			L1Handler:       []core.CasmEntryPoint{},
+			Constructor:     []core.CasmEntryPoint{{Offset: 1, Builtins: []string{}, Selector: lib.F(88)}},
+		},
+	}
 }
 
 // tamperTx changes one hashed field of one transaction (not a legacy Deploy: its hash is taken as
